@@ -82,7 +82,7 @@ def gen_batch(rng, g, sg, nprog, nproc):
     return {'kind': 'batch', 'programs': programs, 'noise': noise, 'procs': procs}
 
 def gen(rng, tier):
-    nbatch, nprog, nproc, ndecl = (24, 10, 8, 300) if tier == 'quick' else (150, 16, 16, 6000)
+    nbatch, nprog, nproc, ndecl = (12, 8, 8, 240) if tier == 'quick' else (100, 12, 12, 2500)
     g = Gen(rng, special=0.15)
     sg = SGen(rng)
     batches = [gen_batch(rng, g, sg, nprog, nproc) for _ in range(nbatch)]
@@ -136,12 +136,8 @@ def impl(case):
         except Exception as e:
             return {'error': type(e).__name__, 'text': text}
         return {'declared': _DECL.findall(out), 'aliased': _ALIAS.findall(out), 'text': text, 'out': out}
-    # batch: start every subprocess, then compile here as well, then collect
-    running = []
-    for proc in case['procs']:
-        p, job = _spawn(case, proc)
-        p.stdin.write(job); p.stdin.close()
-        running.append((proc, p))
+    # batch: compile here (twice, with unrelated compilations in between), then one subprocess after the other
+    # (the runner's pool already runs several cases in parallel: no more than one child per pool worker)
     here = []
     state = {}
     first = [c18_driver.compile_one(t, None) for t in case['programs']]
@@ -153,9 +149,10 @@ def impl(case):
     for i, d in enumerate(second):
         results[i].add(d)
     problems = []
-    for proc, p in running:
+    for proc in case['procs']:
+        p, job = _spawn(case, proc)
         try:
-            out = p.stdout.read(); err = p.stderr.read(); p.wait(timeout=240)
+            out, err = p.communicate(job, timeout=240)
         except Exception as e:
             p.kill()
             problems.append('subprocess with hash seed %d: %r' % (proc['hashseed'], e))
@@ -164,7 +161,7 @@ def impl(case):
             problems.append('subprocess with hash seed %d exited with %d: %s' % (proc['hashseed'], p.returncode, err[-300:]))
             continue
         for pi, dgst in json.loads(out):
-            if dgst.startswith('EXC') and proc['plan'][0][2] == 'bare-object':
+            if dgst.startswith('EXC') and proc['plan'] and proc['plan'][0][2] == 'bare-object':
                 # an options object without current_source_file (as in the repo's tests) makes the visitor's
                 # `raise CompilerError(self.context.current_source_file, ...)` an AttributeError: different options,
                 # different error; such results are compared among themselves only
@@ -176,7 +173,7 @@ def impl(case):
                 results[pi].add(dgst)
                 if len(results[pi]) == 2:
                     problems.append('program %d: hash seed %d (options %s) gives %s, the harness process gave %s' % (
-                        pi, proc['hashseed'], proc['plan'][0][2], dgst[:40], first[pi][:40]))
+                        pi, proc['hashseed'], proc['plan'][0][2] if proc['plan'] else '-', dgst[:40], first[pi][:40]))
     rich = []
     from yldprolog.compiler import compile_prolog_from_string
     for t in case['programs']:
